@@ -423,6 +423,7 @@ type Machine struct {
 	Sizes types.Sizes
 	proto *interpreter
 
+	ExtraInit []*ssa.Package // packages whose initialisers also run (the model package: nothing imports it)
 	baseOnce sync.Once
 	base     map[*ssa.Global]*value // initialised globals of non-acra packages, shared read-only by all paths
 	BaseErr  string
@@ -439,6 +440,9 @@ func (m *Machine) buildBase(pkg *ssa.Package) {
 	}()
 	i.inInit++
 	call(i, nil, token.NoPos, pkg.Func("init"), nil)
+	for _, p := range m.ExtraInit {
+		call(i, nil, token.NoPos, p.Func("init"), nil)
+	}
 	base := map[*ssa.Global]*value{}
 	for g, cell := range i.globals {
 		if g.Pkg == nil {
@@ -540,6 +544,9 @@ func (m *Machine) RunHarness(ex *Explorer, pkg *ssa.Package, fn *ssa.Function) (
 	}()
 	i.inInit++
 	call(i, nil, token.NoPos, pkg.Func("init"), nil)
+	for _, p := range m.ExtraInit {
+		call(i, nil, token.NoPos, p.Func("init"), nil)
+	}
 	i.inInit--
 	i.panicActive = false
 	call(i, nil, token.NoPos, fn, nil)
